@@ -261,3 +261,28 @@ func BaseObject(v ssa.Value) (ssa.Value, string) {
 		}
 	}
 }
+
+// ParamOf resolves v to a function parameter: v itself, or a load of the local variable
+// a parameter was spilled to (parameters captured by closures live in memory and are
+// never reassigned when their variable has a single store).
+func ParamOf(v ssa.Value) *ssa.Parameter {
+	switch x := v.(type) {
+	case *ssa.Parameter:
+		return x
+	case *ssa.UnOp:
+		if x.Op != token.MUL {
+			return nil
+		}
+		if al, ok := x.X.(*ssa.Alloc); ok {
+			if sv := singleStore(al); sv != nil {
+				if p, ok := sv.(*ssa.Parameter); ok {
+					return p
+				}
+			}
+		}
+	}
+	return nil
+}
+
+// IsParam reports whether v is (a spill-load of) the given parameter.
+func IsParam(v ssa.Value, prm *ssa.Parameter) bool { return prm != nil && ParamOf(v) == prm }
